@@ -170,8 +170,17 @@ def side_conditions(ctx, rid):
     okc = len(cs) == 1 and cs[0][0].root == "render_table_row"
     if okc:
         b, bb, t = cs[0]
-        cut = edges_where(b, lambda truth, src, a, s: truth is True and src and src[0] == "call" and callee_method(src[1]) == "any")
+        # `any(|c| !c.empty())` true, or equivalently `all(|c| c.empty())` false
+        cut = edges_where(b, lambda truth, src, a, s: src and src[0] == "call" and
+                          ((truth is True and callee_method(src[1]) == "any") or (truth is False and callee_method(src[1]) == "all")))
         okc = unreachable_without_edges(b, bb, cut)
+        if okc:
+            # the predicate looks at Renderer::empty(), negated for `any`, plain for `all`
+            okc = False
+            for _cbb, _i, pc, _o, _f in closure_bodies_created_in(F, b):
+                neg, psrc = pc.trace_value({"c": {"l": 0, "p": []}})
+                if psrc[0] == "call" and ends(callee_def(psrc[1]), "render::Renderer>::empty"):
+                    okc = True
     ctx.check(okc, rid, "side:append_columns-only-with-a-nonempty-column", ac.span, ac.id, "")
     # S10 (INV-REMAP / INV-SBS, see tables/mag_invariants.txt and the SBS rows): num_cells is read only by
     # RenderTable::new, after the remap loop; render_table_row (side-by-side) is chosen exactly when !vertical
